@@ -132,9 +132,13 @@ Definition accepted (s : st) (pe : peer) (en : rent) (rf : rfeat) (lf : lfeat) (
     end
   else
     match c with
-    | CReply | CNotify =>
+    | CReply =>
         (* C02: the replica of the sending feature carries that function *)
         fn_registered (rf_type rf) (pl_fn pl)
+    | CNotify =>
+        (* and, for a notification carrying the partial filter, its type supports partial updates
+           (detailed discovery data, the only such payload here, does not) *)
+        fn_registered (rf_type rf) (pl_fn pl) && negb (partial_payload pl)
     | CWrite =>
         (* C03: function writable on this feature, sender bound, function data present *)
         writable lf (pl_fn pl) && bound s lf (rf_addr en rf) && fn_registered (lf_type lf) (pl_fn pl)
